@@ -283,7 +283,15 @@ AddSourceDuplicate(s) ==
   /\ act' = [name |-> "AddSourceBad", bad |-> "duplicate", n |-> s] /\ obs' = [kind |-> "reject"]
   /\ UNCHANGED <<stale, frozen, dirty, costNode, implicitNoErr, status, cons, pidx, fixed, limited, dataSet, didFit, ownSrc>>
 
+(* fit.to_file followed by from_file: a position marker -- the replay keeps the original object alive next to the   *)
+(* reloaded one, applies every later step to both and compares what they report (C09).                             *)
+Reload ==
+  /\ Bounded("Reload")
+  /\ act' = [name |-> "Reload"] /\ obs' = [kind |-> "none"]
+  /\ UNCHANGED <<stale, frozen, dirty, costNode, implicitNoErr, status, cons, pidx, fixed, limited, dataSet, didFit, ownSrc>>
+
 Next ==
+  \/ Reload
   \/ \E s \in SrcNames : AddSource(s)
   \/ \E s \in SrcNames : Disable(s)
   \/ \E s \in SrcNames : Enable(s)
